@@ -13,6 +13,13 @@ CLAIMED.update({
  "C12": ("seqx", "model_checking", "Every history up to the depth bound over SetCollection (new/existing names, three comparators), RemoveCollection (present/absent), mutations through the registered handle, Flush, Reopen and a snapshot; names, contents, isolation of other collections and of the snapshot, and durability-at-Flush-only are compared with the model at the end of every history.", "5.C12", "explicit-state search over operation histories against a reference map of collections"),
  "C15": ("seqx", "model_checking", "Every history up to the depth bound over mutations, lookups in both value modes, Exist, Min, visits with and without early stop, an iterator closed early, eviction, flush, re-open, collection removal/replacement and snapshots, followed by closing snapshots and store in both orders; counting ItemAlloc/ItemAddRef/ItemDecRef callbacks decide: no count below zero, every item handed out or reachable from an open handle (side-effect-free walk of the cached tree) has a positive count, all counts zero after everything is closed and all producer goroutines have quiesced.", "5.C15", "explicit-state search over operation histories with counting callbacks and cached-tree introspection"),
  "C16": ("seqx", "model_checking", "Exhaustive product over collection sizes (every n in a small range, the sizes around 1024/2048/3072), store kinds (memory, flushed+evicted, re-opened), priority patterns, key sets and APIs: Len, VisitItemsAscendBlockEx with nil/identity/reverse/rotate and (small n) every block permutation, VisitItemsRandom with every answer sequence of the random source for small n and every single deviation from the default sequence above; oracle: Len = n and every key presented exactly once.", "5.C16", "exhaustive enumeration of sizes x configurations x random-source answers on the implementation"),
+ "C06": ("seqx", "model_checking", "Exhaustive product on the real store: contents (every Set sequence up to the bound over 3 keys of two lengths: every subset, insertion order, priority order with ties and overwrites) x 6 cache states (dirty, flushed, flushed+evicted with every random path, re-opened, re-opened+value load, re-opened+partial visit) x 3 comparators x 11 targets x 6 APIs (incl. both iterators) x withValue x every visitor stop position; delivered sequence, key/priority/value and the Ex depth (against the side-effect-free walk of the tree) are compared with the model range.", "5.C06", "exhaustive enumeration of contents x cache states x comparators x targets x APIs x stop positions on the implementation"),
+ "C09": ("seqx", "model_checking", "File monitor evaluated on every individual WriteAt/Truncate of every history of three profiles (all read-only entry points mixed with mutations/Flush/Reopen/FlushRevert and snapshots; the two-collection store alphabet with FlushRevert; tools/view built from the tree run on every distinct flushed image): writes never below the end of the last durable root record, writes of a Flush tile the appended region, Truncate only in FlushRevert of the writable store to 0 or a root-record end (independent decoder), zero writes during read-only calls.", "5.C09", "explicit-state search over operation histories with a per-call file monitor"),
+ "C11": ("seqx", "model_checking", "Every source state reached by histories up to the bound (two collections, one with a reverse comparator, empty stores/collections, evicted/re-opened caches) x source kind (writable store, snapshot) x flushEvery in {-1,0,1,2,3,n,n+1}; the result store, the re-opened destination image, the one-item-record-per-key compaction condition (independent decoder over all roots of the destination) and the untouched source are all checked.", "5.C11", "explicit-state search over source histories x CopyTo configurations"),
+ "C13": ("seqx", "model_checking", "Exhaustive small scopes: every history up to the bound over Set(k,p) for 4 keys x 4 priorities (all insertion orders, rankings, ties), Delete, Flush, Evict (every branch), Reopen; at every end state search order, exact aggregates, conditional heap order and canonical depth are checked on the cached tree (side-effect-free walk) and order + aggregates on every persisted node record (independent decoder).", "5.C13", "exhaustive small-scope enumeration of insertion orders x priority assignments x edits with tree introspection"),
+ "C14": ("seqx", "model_checking", "After every Flush and for every CopyTo destination in every history up to the bound (store alphabet; size/name profile with key lengths up to 65535, values up to 70000 bytes, unusual collection names, empty collections) an independent decoder written from the documented layout must accept all records, reconstruct the model's flushed state and explain every appended byte as an item, node or root record reachable from the new root.", "5.C14", "explicit-state search over histories with an independent file-format decoder as oracle"),
+ "C17": ("seqx", "model_checking", "All 512 subsets of the nine store callbacks (neutral implementations, values written/read in two chunks) x every history up to the bound, with the C01/C02/C09/C14 oracles on and the additional requirement that the observation log equals the log of the same history without callbacks; the 9 singletons, the empty and the full set at larger depth.", "5.C17", "exhaustive enumeration of callback configurations x operation histories with differential log comparison"),
+ "C19": ("seqx", "model_checking", "Every history up to the bound over mutations, key-only lookups/visits/Len, value-loading reads (to vary the cache), Flush, Evict, Reopen; every ReadAt issued during a key-only call is checked against the value byte ranges of all item records (independent decoder over all roots); every open of a file ending in a root record may only Stat and read inside that record and must leave nothing cached; at the end of every history the file is re-opened and all key-only operations run on the never-loaded store.", "5.C19", "explicit-state search over histories with a per-read file monitor"),
 })
 NA_REASON = "check not built yet in this round (engine under construction); will be claimed when its check exists"
 ALL = ["C%02d" % i for i in range(1, 20)]
